@@ -517,7 +517,7 @@ def gen_piece(rng, ntracks, values, pitch_range, nbars=None, tier="quick", grids
         if rng.random() < 0.4 else None
     # "sparse on the beat": a longer piece of two signatures, about every second bar empty, one or two notes per sounding bar,
     # onsets on whole beats - the shape in which two rests in different signatures agree in length and in room left
-    sparse = nbars_given is None and rng.random() < 0.1
+    sparse = nbars_given is None and rng.random() < 0.13
     if sparse:
         nbars = rng.randrange(6, 11)
         track_len = [nbars if t == 0 or rng.random() < 0.5 else rng.randrange(0, nbars + 1) for t in range(ntracks)]
@@ -592,14 +592,20 @@ def gen_piece(rng, ntracks, values, pitch_range, nbars=None, tier="quick", grids
                 kind = rng.choice(["key", "prog", "cc", "cc"])
                 ex.append([tr, off, kind, rng.choice(music.KEYS) if kind == "key" else rng.randrange(0, 120), rng.randrange(0, 128)])
             bars[-1]["extras"] = ex
-    return {"ntracks": ntracks, "bars": bars, "explicit_first": rng.random() < 0.5,
-            "pad_tracks": [rng.random() < 0.3 for _ in range(ntracks)]}
+    out = {"ntracks": ntracks, "bars": bars, "explicit_first": rng.random() < 0.5,
+           "pad_tracks": [rng.random() < 0.3 for _ in range(ntracks)]}
+    if sparse:
+        out["shape"] = "sparse"
+    return out
 
 
 def gen_cuts(rng, piece):
     nb = len(piece["bars"])
     shape = rng.choice(["uniform", "uniform", "uniform", "singletons", "singletons", "one", "at_changes", "around_empty",
                         "after_changes"])
+    if piece.get("shape") == "sparse" and rng.random() < 0.4:
+        # silent bars as calls of their own, again and again with the same input
+        shape = rng.choice(["singletons", "around_empty"])
     if nb <= 1 or shape == "one":
         return []
     if shape == "singletons":
